@@ -147,6 +147,14 @@ CLAIMED["C20"] = (
     "DESIGN.md §5 C20",
 )
 
+CLAIMED["C17"] = (
+    "exploration",
+    "bounded-exhaustive enumeration of internal values (round trip) and of API messages with deviating fields (totality, invariants), downstream consumers as crash oracle",
+    "Round trip: every attribute and NLRI value obtained by decoding the wire corpus of C03/C04 (all 19 families, all 22 attribute kinds, LS / PREFIX_SID / TUNNEL_ENCAP TLV ladders) plus accepted single mutants -> attr_to_api / nlri_to_api -> attr_from_api / net_from_api -> must be identical (and re-encode to the same bytes). Totality / invariants: valid API messages for every attribute and NLRI type with every single field (quick) / pair of fields (thorough) set to boundary and out-of-range values (enum -1/0/max+1/256/2^31, lists of 0/1/255/256/70000 elements, malformed / wrong-family / over-long address strings, labels and lengths beyond their bit width): conversion must not panic, and whatever it accepts must (a) be accepted by the wire decoder after encoding, (b) survive the best-path comparator, policy evaluation with every condition kind, export rewriting and encoding under 4 codec configurations without panic (dev profile, overflow checks on).",
+    "24 signatures are known findings: information the gRPC schema cannot express (LS / PREFIX_SID / TUNNEL_ENCAP sub-TLVs, PARTIAL flag, OSPF area 0, RTC AS-wildcard with AS 0, descriptor order) and the private SRv6-SID LS layout; each needs an API schema extension or a codec redesign. 21 defects were repaired. Built by a helper sub-agent; integrated by a second one.",
+    "DESIGN.md §5 C17",
+)
+
 REASON_NOT_YET = "no check registered yet in this revision (machinery for it is designed in DESIGN.md §5 but not built/validated); not claimed"
 
 ALL = ["C%02d" % i for i in range(1, 21)]
